@@ -29,6 +29,8 @@ pub mod legs;
 pub struct LangSet {
     pub apis: Vec<Box<dyn Api>>,
     pub lex: Vec<Lexicon>,
+    /// the runtime-selectable `Language` values, one per language (same order)
+    pub facades: Vec<Box<dyn Api>>,
 }
 
 impl LangSet {
@@ -36,7 +38,27 @@ impl LangSet {
     pub fn new() -> LangSet {
         let apis = api::all_concrete();
         let lex = apis.iter().map(|a| Lexicon::build(a.as_ref())).collect();
-        LangSet { apis, lex }
+        let facades = api::LANGS.iter().map(|c| api::facade(c)).collect();
+        LangSet { apis, lex, facades }
+    }
+    /// Polyglot process: one case in eight (chosen by the hash of the phrase, so that a replay does the same) is first
+    /// shown to every OTHER language, through the concrete types and through the runtime-selectable values, on this
+    /// thread; results are discarded.  A service that tries each language in turn does exactly this, and whatever those
+    /// calls leave behind (a memo keyed by the text but not by the language, a shared scratch value) must not change how
+    /// the phrase is then read in its own language.  Returns true when the probe was made.
+    pub fn polyglot_probe(&self, code: &str, phrase: &str, text: &str) -> bool {
+        if crate::rng::hash_str(phrase) % 8 != 0 {
+            return false;
+        }
+        for (i, c) in api::LANGS.iter().enumerate() {
+            if *c != code {
+                std::hint::black_box(self.apis[i].validate(phrase).is_ok());
+                std::hint::black_box(self.facades[i].validate(phrase).is_ok());
+                std::hint::black_box(self.facades[i].replace(text, 0.0).len());
+                std::hint::black_box(self.apis[i].replace(text, 0.0).len());
+            }
+        }
+        true
     }
     pub fn idx(&self, code: &str) -> usize {
         api::LANGS.iter().position(|c| *c == code).expect("language code")
